@@ -53,7 +53,7 @@ func (c *LambertConformalConic) Forward(lonlat geom.XY) geom.XY {
 		φ2 = dtor(c.stdParallels[1])
 	)
 	var (
-		n  = ln(cos(φ1)*sec(φ2)) / ln(tan(π/4+φ2/2)*cot(π/4+φ1/2))
+		n  = lambertConeConstant(φ1, φ2)
 		F  = cos(φ1) * pow(tan(π/4+φ1/2), n) / n
 		ρ  = R * F * pow(cot(π/4+φ/2), n)
 		ρ0 = R * F * pow(cot(π/4+φ0/2), n)
@@ -77,7 +77,7 @@ func (c *LambertConformalConic) Reverse(xy geom.XY) geom.XY {
 		φ2 = dtor(c.stdParallels[1])
 	)
 	var (
-		n  = ln(cos(φ1)*sec(φ2)) / ln(tan(π/4+φ2/2)*cot(π/4+φ1/2))
+		n  = lambertConeConstant(φ1, φ2)
 		F  = cos(φ1) * pow(tan(π/4+φ1/2), n) / n
 		ρ0 = R * F * pow(cot(π/4+φ0/2), n)
 	)
@@ -90,4 +90,14 @@ func (c *LambertConformalConic) Reverse(xy geom.XY) geom.XY {
 		λ = λ0 + θ/n
 	)
 	return geom.XY{X: rtod(λ), Y: rtod(φ)}
+}
+
+// lambertConeConstant gives the cone constant for the two standard parallels
+// (in radians). When they coincide the cone is tangent at that parallel; the
+// general formula is 0/0 there and its limit is sin(φ1).
+func lambertConeConstant(φ1, φ2 float64) float64 {
+	if φ1 == φ2 {
+		return sin(φ1)
+	}
+	return ln(cos(φ1)*sec(φ2)) / ln(tan(π/4+φ2/2)*cot(π/4+φ1/2))
 }
